@@ -14,4 +14,5 @@ replace github.com/youzan/gorocksdb => /verif/third_party/gorocksdb
 
 replace github.com/ugorji/go => /verif/third_party/ugorji-go
 EOM
-cd $TREE && go "$@" -modfile=$D/alt.mod
+SUB=$1; shift
+cd $TREE && go $SUB -modfile=$D/alt.mod "$@"
